@@ -15,7 +15,7 @@ that has both keys and matches, else the pinned defaults [(60, 10080)] / (None, 
 import z3
 
 from pyvc.core import EngineError
-from pyvc.runner import Unit, Property
+from pyvc.runner import Unit, Property, Bounded
 from pyvc.interp import Interp, LoopSpec, OBJECT
 from pyvc.models import Namespace, External, EffectLog, SymSeq, TSort, TAtom, PyList, Ty
 from pyvc.values import Atom, Val, Model, PyObj, PyRaise, ExcVal, ExcClass, Builtin, RepoClass
@@ -402,6 +402,9 @@ def build():
   ]
   return Property(
     'C19', units,
+    bounded=[Bounded('C19/native/generated_config_files', 'replay/schemas_native.py', ['--n', '300'], ['--n', '20000'],
+                     "300 (quick) / 20000 (thorough) seeded random pairs of storage-schemas.conf (1..6 sections, patterns from a pool of 10 overlapping regexes, sections without pattern / without retentions, unknown keys, key order shuffled, 1..3 archives with precision and duration in every unit suffix s/m/h/d/w/y or plain numbers) and storage-aggregation.conf (0..5 sections, missing keys) x 10 metric names, through the real loadStorageSchemas / loadAggregationSchemas and the real create phase of writeCachedDataPoints with a storage double, against an independent reading of the files",
+                     "ConfigParser and the regex / string primitives are assumptions of the proof (A-CONF, A-STR); this runs parser, loaders and writer together on CPython")],
     trusted_base=['A-ENGINE', 'A-SMT', 'A-CONF', 'A-STR(strip/split/isdigit/int/re.match uninterpreted)', 'A-BACKEND'],
     assumptions=[
       "A-CONF: OrderedConfigParser.sections() is the file order of [section] headers and items()/has_option/get return the section's options (OrderedConfigParser.read itself does file I/O and is not under contract)",
